@@ -248,11 +248,14 @@ closed:
 		err = clnt.err
 	}
 	clnt.Unlock()
-	for ; r != nil; r = r.next {
+	for r != nil {
+		/* the woken caller frees r and clears r.next */
+		next := r.next
 		r.Err = err
 		if r.Done != nil {
 			r.Done <- r
 		}
+		r = next
 	}
 
 	clnts.Lock()
